@@ -25,6 +25,7 @@ func init() {
 	zzsv.Register("ZZ_C01_LiteralOperands", ZZ_C01_LiteralOperands)
 	zzsv.Register("ZZ_C01_MixedOperands", ZZ_C01_MixedOperands)
 	zzsv.Register("ZZ_C01_Index", ZZ_C01_Index)
+	zzsv.Register("ZZ_C01_UnaryLiterals", ZZ_C01_UnaryLiterals)
 }
 
 var zzBinOps = []string{"+", "-", "*", "/", "%", "**", "<", "<=", ">", ">=", "==", "!=", "~=", "!~", "in", ".."}
@@ -760,4 +761,99 @@ func zzIf(c bool, a, b int) int {
 		return a
 	}
 	return b
+}
+
+// ZZ_C01_UnaryLiterals: prefix operators on literals and on constant
+// sub-expressions (what a compile-time rewrite sees): -L, !L, √L, -(-L),
+// !(!L), -(L1 - L2), !(L1 == L2), !(L1 && L2), -(L1 * 1), with and without
+// the optimizer, against the specification of the operators.
+func ZZ_C01_UnaryLiterals(sv *zzsv.T) {
+	l1 := sv.Int64("L1")
+	l2 := sv.Int64("L2")
+	sv.Assume(l1 >= 0 && l1 <= 70000 && l2 >= 0 && l2 <= 70000)
+	neg := func(v zv) (int, zv) {
+		switch v.t {
+		case tInt:
+			return kValue, zInt(-v.i)
+		case tFloat:
+			return kValue, zFloat(-v.f)
+		}
+		return kError, zv{}
+	}
+	not := func(v zv) (int, zv) {
+		switch v.t {
+		case tBool:
+			return kValue, zBool(!v.b)
+		case tNull:
+			return kValue, zBool(true)
+		}
+		return kValue, zBool(false)
+	}
+	type form struct {
+		src  string
+		eval func() (int, zv)
+	}
+	bin := func(op string, a, b zv, then func(zv) (int, zv)) (int, zv) {
+		k, v := zzSpecBinary(sv, op, a, b)
+		if k != kValue {
+			return k, v
+		}
+		return then(v)
+	}
+	A, B := zInt(l1), zInt(l2)
+	forms := []form{
+		{"return -7001;", func() (int, zv) { return neg(A) }},
+		{"return !7001;", func() (int, zv) { return not(A) }},
+		{"return -(-7001);", func() (int, zv) { _, v := neg(A); return neg(v) }},
+		{"return !(!7001);", func() (int, zv) { _, v := not(A); return not(v) }},
+		{"return -(7001 - 7002);", func() (int, zv) { return bin("-", A, B, neg) }},
+		{"return !(7001 == 7002);", func() (int, zv) { return bin("==", A, B, not) }},
+		{"return !(7001 < 7002);", func() (int, zv) { return bin("<", A, B, not) }},
+		{"return !(7001 && 7002);", func() (int, zv) { return not(zBool(zzTruth(A) && zzTruth(B))) }},
+		{"return !(7001 || 7002);", func() (int, zv) { return not(zBool(zzTruth(A) || zzTruth(B))) }},
+		{"return -(7001 + 7002) + 7001;", func() (int, zv) {
+			return bin("+", A, B, func(v zv) (int, zv) { _, n := neg(v); return zzSpecBinary(sv, "+", n, A) })
+		}},
+		{"return -7001 - 7002;", func() (int, zv) { _, n := neg(A); return zzSpecBinary(sv, "-", n, B) }},
+		{"return -\"s\";", func() (int, zv) { return kError, zv{} }},
+		{"return !\"s\";", func() (int, zv) { return kValue, zBool(false) }},
+		{"return !\"\";", func() (int, zv) { return kValue, zBool(false) }},
+		{"return -true;", func() (int, zv) { return kError, zv{} }},
+		{"return !true;", func() (int, zv) { return kValue, zBool(false) }},
+		{"return !false;", func() (int, zv) { return kValue, zBool(true) }},
+		{"return -2.5;", func() (int, zv) { return kValue, zFloat(-2.5) }},
+		{"return !2.5;", func() (int, zv) { return kValue, zBool(false) }},
+		{"return -[1];", func() (int, zv) { return kError, zv{} }},
+		{"return ![];", func() (int, zv) { return kValue, zBool(false) }},
+		{"return √16;", func() (int, zv) { return kUnspec, zv{} }}, // (known finding of C03: folded to an integer)
+		{"return √2.25;", func() (int, zv) { return kValue, zFloat(1.5) }},
+		{"return √\"s\";", func() (int, zv) { return kError, zv{} }},
+		{"return -(√2.25);", func() (int, zv) { return kValue, zFloat(-1.5) }},
+	}
+	f := forms[sv.Choice("form", len(forms))]
+	sv.Note("script", f.src+"   (7001, 7002 are symbolic literals)")
+	prog, ok := zzParseWithLits(sv, f.src, []int64{l1, l2})
+	sv.Assume(ok)
+	e := New(f.src)
+	var perr error
+	okp := zzNoPanic(func() { perr = zzPrepareAST(e, prog, sv.Choice("noopt", 2) == 0) })
+	sv.Assert("C01.unarylit.prepare.nopanic", okp)
+	if !okp {
+		return
+	}
+	kind, want := f.eval()
+	if perr != nil {
+		sv.Assert("C01.unarylit.prepare.error_only_for_error", kind != kValue)
+		return
+	}
+	out, err := e.Execute(nil)
+	zzDescribe(sv, "result", out, err)
+	switch kind {
+	case kValue:
+		sv.Assert("C01.unarylit.value", err == nil && zzSame(sv, out, want))
+	case kError:
+		sv.Assert("C01.unarylit.error", err != nil)
+	default:
+		sv.Reach("C01.unarylit.unspec")
+	}
 }
